@@ -589,11 +589,11 @@ func r15_1(c *Ctx) {
 				g := false
 				for _, ifi := range ifsIn(fn) {
 					cnd := decodeIf(ifi)
-					if cnd.Y == nil || cnd.Op != token.EQL {
+					if cnd.Y == nil || (cnd.Op != token.EQL && cnd.Op != token.NEQ) {
 						continue
 					}
 					k, isK := constInt(cnd.Y)
-					if !isK || k != 0 || !edgeDominates(ifi.Block(), cnd.succWhen(true), ret.Block()) {
+					if !isK || k != 0 || !edgeDominates(ifi.Block(), cnd.succWhen(cnd.Op == token.EQL), ret.Block()) {
 						continue
 					}
 					sum, _ := countAtoms(cnd.X)
